@@ -25,12 +25,10 @@ struct IoCtx {
 
 static const double ALPHAS[] = {0.1, 0.3, 0.5, 0.012467, 3.0517578125e-05 /*2^-15*/, 2.98023223876953125e-08 /*2^-25*/, 7.18e-9, 2.44e-5,
                                 1e-12, 1e-9, 1.0 / 3, 0.25, 9.313225746154785e-10 /*2^-30*/, 0.0, 6.103515625e-05,
-                                // values whose shortest exact text is long: 17 significant digits with three-digit exponents, the
-                                // smallest normal and subnormal numbers, the largest finite one, negative values (stored fields only:
-                                // the scenario never samples with these)
-                                1.2345678901234567e-100, 1.4285714285714286e-301, 2.2250738585072014e-308, 4.9406564584124654e-324,
-                                1.7976931348623157e+308, 6.0221407600000003e+123, -7.1799999999999996e-09, -2.9802322387695312e-08,
-                                -1.2345678901234567e-100, 123456.78901234567};
+                                // tiny positive noise levels whose exact text is long (17 significant digits, three-digit exponent).  Stored
+                                // fields only: the scenario never samples with these.  (Negative, subnormal and huge values were tried and
+                                // round-trip on this tree, but they are not noise levels and a change that rejects them would not break C05.)
+                                1.2345678901234567e-100, 1.4285714285714286e-301, 2.2250738585072014e-308};
 static const int NALPHA = sizeof ALPHAS / sizeof *ALPHAS;
 
 static int32_t content_val(Rng &r, int content) {
